@@ -10,6 +10,7 @@
 
 #include <distributed/mpi.h>
 #include <lp/lp.h>
+#include <verif_hooks.h>
 
 /// The number of nodes that still need to continue running the simulation
 _Atomic nid_t nodes_to_end;
@@ -75,6 +76,7 @@ void termination_on_gvt(simtime_t current_gvt)
 	if(likely((lps_to_end || max_t >= current_gvt) && current_gvt < global_config.termination_time))
 		return;
 	max_t = SIMTIME_MAX;
+	VH(VH_TERM_VOTE, NULL, VH_BITS(current_gvt), 0);
 	unsigned t = atomic_fetch_sub_explicit(&thr_to_end, 1U, memory_order_relaxed);
 	if(t == 1)
 		mpi_control_msg_broadcast(MSG_CTRL_TERMINATION);
